@@ -85,6 +85,14 @@ func submissions(around []string, window []string, d int) []string {
 			add("0x" + w[2:])
 		}
 	}
+	// extensions whose LENGTH is congruent to the right one modulo 2^8 / 2^16 (narrowed length checks)
+	if len(x) > 0 {
+		for _, n := range []int{256, 512, 65536} {
+			add(x + strings.Repeat("0", n))
+			add(x + strings.Repeat(x[len(x)-1:], n))
+		}
+		add(strings.Repeat("0", 256) + x)
+	}
 	add("")
 	add(strings.Repeat("0", d))
 	add(strings.Repeat("9", d))
